@@ -92,6 +92,17 @@ Definition data_frag_msg (sp : spayload) (sn k fs sample_size : Z) : datafrag :=
   {| df_sn := sn; df_start := k; df_count := 1; df_data_size := sample_size; df_frag_size := fs;
      df_payload := bytes_slice sp from_byte up_to_before_byte |}.
 
+(* A DATAFRAG that carries the c consecutive fragments k .. k+c-1 of the sample (RTPS 8.3.8.3,
+   fragmentsInSubmessage = c; emitted by other vendors' writers, never by RustDDS' own): its payload
+   is the concatenation of those fragments' bytes, i.e. the byte range
+     (k - 1) * fs .. min((k - 1 + c) * fs, sample_size)
+   of header ++ value (the last fragment of the sample may be short).  c = 1 is data_frag_msg. *)
+Definition data_frags_msg (sp : spayload) (sn k c fs sample_size : Z) : datafrag :=
+  let from_byte := (k - 1) * fs in
+  let up_to_before_byte := Z.min ((k - 1 + c) * fs) sample_size in
+  {| df_sn := sn; df_start := k; df_count := c; df_data_size := sample_size; df_frag_size := fs;
+     df_payload := bytes_slice sp from_byte up_to_before_byte |}.
+
 (* Writer::num_frags_and_frag_size, with the `as u32` / `as u16` truncations as written.
    dmax = self.data_max_size_serialized.  Division by zero panics in Rust. *)
 Definition num_frags_and_frag_size (dmax payload_sz : Z) : res (Z * Z) :=
@@ -314,7 +325,8 @@ Fixpoint run_state (nd : njd) (now : Z) (st : rstate) (ops : list op) : option r
 (* Honest traffic: a table of writers (fragment size, samples by sequence number) and an arrival
    order of fragment numbers / GC events. *)
 Inductive arrival :=
-| AFrag (w sn k : Z)
+| AFrag (w sn k : Z)             (* fragment k alone in a DATAFRAG (what RustDDS' writer sends) *)
+| AFrags (w sn k c : Z)          (* fragments k .. k+c-1 in one DATAFRAG (fragments_in_submessage = c) *)
 | AGc (w t : Z).
 
 Definition wtable := list (Z * (Z * list (Z * spayload))).   (* w |-> (fs, sn |-> payload) *)
@@ -335,22 +347,27 @@ Definition to_op (ws : wtable) (a : arrival) : op :=
   | AFrag w sn k =>
       let sp := sp_of ws w sn in
       OFrag w (data_frag_msg sp sn k (fs_of ws w) (payload_size sp))
+  | AFrags w sn k c =>
+      let sp := sp_of ws w sn in
+      OFrag w (data_frags_msg sp sn k c (fs_of ws w) (payload_size sp))
   | AGc w t => OGc w t
   end.
 
 (* honest-writer conditions, decidable: fragment size in 1..65535 per writer, sample strictly
    larger than the fragment size (otherwise the writer sends DATA) and below 2^32, fragment
-   number in 1..num_frags *)
+   numbers k .. k+c-1 inside 1..num_frags, 1 <= c <= 65535 (fragments_in_submessage is a u16) *)
+Definition frags_okb_arr (ws : wtable) (w sn k c : Z) : bool :=
+  match sample_of ws w sn with
+  | Some sp =>
+      let fs := fs_of ws w in
+      (1 <=? fs) && (fs <=? 65535) && (fs <? payload_size sp) && (payload_size sp <? 2 ^ 32)
+      && (1 <=? sn) && (1 <=? k) && (1 <=? c) && (c <=? 65535) && (k - 1 + c <=? nfrags sp fs)
+  | None => false
+  end.
 Definition arrival_okb (ws : wtable) (a : arrival) : bool :=
   match a with
-  | AFrag w sn k =>
-      match sample_of ws w sn with
-      | Some sp =>
-          let fs := fs_of ws w in
-          (1 <=? fs) && (fs <=? 65535) && (fs <? payload_size sp) && (payload_size sp <? 2 ^ 32)
-          && (1 <=? sn) && (1 <=? k) && (k <=? nfrags sp fs)
-      | None => false
-      end
+  | AFrag w sn k => frags_okb_arr ws w sn k 1
+  | AFrags w sn k c => frags_okb_arr ws w sn k c
   | AGc w t => true
   end.
 
@@ -365,11 +382,14 @@ Definition covers (n : Z) (S : list Z) : bool :=
 Definition kstate := (list Z * Z)%type.
 Definition k0 : kstate := ([], 0).
 
-Inductive kev := KFrag (k : Z) | KGc (t : Z) | KNone.
+(* KFrag k c: one DATAFRAG carrying the fragment numbers k .. k+c-1 of the sample *)
+Inductive kev := KFrag (k c : Z) | KGc (t : Z) | KNone.
+Definition frag_nums (k c : Z) : list Z := iota k (Z.to_nat c).
 
 Definition kstep (n : Z) (now : Z) (s : kstate) (e : kev) : kstate :=
   match e with
-  | KFrag k => if covers n (k :: fst s) then ([], now) else (k :: fst s, now)
+  | KFrag k c => let S := frag_nums k c ++ fst s in
+                 if covers n S then ([], now) else (S, now)
   | KGc t => match fst s with
              | [] => s
              | _ => if snd s <? t then ([], snd s) else s
@@ -386,7 +406,8 @@ Fixpoint krun (n : Z) (now : Z) (s : kstate) (es : list kev) : kstate :=
 (* the event an arrival is for sample (w, sn) *)
 Definition kev_of_arrival (w sn : Z) (a : arrival) : kev :=
   match a with
-  | AFrag w' sn' k => if (w' =? w) && (sn' =? sn) then KFrag k else KNone
+  | AFrag w' sn' k => if (w' =? w) && (sn' =? sn) then KFrag k 1 else KNone
+  | AFrags w' sn' k c => if (w' =? w) && (sn' =? sn) then KFrag k c else KNone
   | AGc w' t => if w' =? w then KGc t else KNone
   end.
 
@@ -394,14 +415,16 @@ Definition missing_of (n : Z) (S : list Z) : list Z :=
   filter (fun k => negb (memz k S)) (iota 1 (Z.to_nat n)).
 
 (* expected observation of arrival a after the arrivals pre (pre in arrival order) *)
+Definition spec_frags (ws : wtable) (pre : list arrival) (w sn k c : Z) : aout :=
+  let sp := sp_of ws w sn in
+  let n := nfrags sp (fs_of ws w) in
+  let s := krun n 0 k0 (map (kev_of_arrival w sn) pre) in
+  if covers n (frag_nums k c ++ fst s) then AOut (Some (hv sp)) []
+  else AOut None (missing_of n (frag_nums k c ++ fst s)).
 Definition spec_at (ws : wtable) (pre : list arrival) (a : arrival) : aout :=
   match a with
-  | AFrag w sn k =>
-      let sp := sp_of ws w sn in
-      let n := nfrags sp (fs_of ws w) in
-      let s := krun n 0 k0 (map (kev_of_arrival w sn) pre) in
-      if covers n (k :: fst s) then AOut (Some (hv sp)) []
-      else AOut None (missing_of n (k :: fst s))
+  | AFrag w sn k => spec_frags ws pre w sn k 1
+  | AFrags w sn k c => spec_frags ws pre w sn k c
   | AGc _ _ => AGcDone
   end.
 
@@ -437,7 +460,8 @@ Fixpoint deliveries (delivered : list (Z * Z)) (ops : list op) (outs : list aout
 (* Correspondence interface *)
 Inductive case :=
 | CSplit (dmax : Z) (sn : Z) (sp : spayload)   (* real Writer with data_max_size_serialized = dmax *)
-| CHonest (ws : wtable) (arr : list arrival)   (* fragments made by data_frag_msg, fed to the assembler *)
+| CHonest (ws : wtable) (arr : list arrival)   (* DATAFRAGs of one or several fragments (data_frag_msg /
+                                                  data_frags_msg), fed to the assembler *)
 | CRaw (ops : list op)                         (* arbitrary DataFrag field values *)
 | CReader (ws : wtable) (arr : list arrival).  (* as CHonest, through a real Reader (hand-over guard) *)
 
@@ -470,7 +494,7 @@ Definition wf_case (c : case) : bool :=
   | CRaw ops => forallb op_okb ops
   | CReader ws arr =>
       forallb (arrival_okb ws) arr
-      && forallb (fun a => match a with AFrag _ _ _ => true | AGc _ _ => false end) arr
+      && forallb (fun a => match a with AGc _ _ => false | _ => true end) arr
   end.
 
 Definition run (c : case) : obs :=
@@ -552,7 +576,9 @@ Definition obs_eqb (a b : obs) : bool :=
      concatenation of the fragments is exactly header ++ value.
    CHonest: the assembler hands over exactly the written bytes at the arrival that completes the
      set of fragment numbers (per attempt), nothing otherwise; the missing-fragment report is the
-     complement of what arrived; no panic.
+     complement of what arrived; no panic.  An arrival is one DATAFRAG that carries one fragment
+     (AFrag) or several consecutive ones (AFrags: fragments_in_submessage > 1, as other vendors'
+     writers send); both are judged alike: the DATAFRAG contributes all its fragment numbers.
    CRaw: no panic, one observation per DATAFRAG; whatever is handed over has the size that the
      completing DATAFRAG announces.
    CReader: the cache changes the Reader adds to its topic cache are exactly: per sample, one
